@@ -132,11 +132,20 @@ func genBatchPoints(t *rapid.T, l Layout, now int64, id int, o histGenOpts) []MP
 		// cover the archive's whole (now-ret, now] range: for step > 1 and now not at the last
 		// second of a step this spans N+1 intervals of a ring of N (ring self-overwrite)
 		stride := ar.Step
-		if rapid.Bool().Draw(t, "dense") && ar.Step > 1 && ar.Points <= 60 {
+		if rapid.Bool().Draw(t, "dense") && ar.Step > 1 && ar.Ret() <= 600 {
 			stride = 1
 		}
-		for age := ar.Ret() - 1; age >= 0; age -= stride {
-			pts = append(pts, MPoint{T: now - age, V: F64(genVal(t, o.UniqueValues, len(pts)))})
+		if ar.Points > 400 {
+			// thousands of slots: one drawn base value, the rest derived (a draw per point would make the
+			// case - and rapid's bookkeeping for it - enormous)
+			base := genVal(t, o.UniqueValues, 0)
+			for age := ar.Ret() - 1; age >= 0; age -= stride {
+				pts = append(pts, MPoint{T: now - age, V: F64(base + float64(len(pts))*0.5)})
+			}
+		} else {
+			for age := ar.Ret() - 1; age >= 0; age -= stride {
+				pts = append(pts, MPoint{T: now - age, V: F64(genVal(t, o.UniqueValues, len(pts)))})
+			}
 		}
 		if ar.Ret()-1 > 0 && rapid.Bool().Draw(t, "withNow") {
 			pts = append(pts, MPoint{T: now, V: F64(genVal(t, o.UniqueValues, len(pts)))})
@@ -184,7 +193,7 @@ func genBatchPoints(t *rapid.T, l Layout, now int64, id int, o histGenOpts) []MP
 			pts = append(pts, MPoint{T: now - age, V: F64(genVal(t, o.UniqueValues, i))})
 		}
 	}
-	if len(pts) > 1 && rapid.IntRange(0, 3).Draw(t, "shuffle") > 0 {
+	if len(pts) > 1 && len(pts) <= 400 && rapid.IntRange(0, 3).Draw(t, "shuffle") > 0 {
 		perm := rapid.Permutation(pts).Draw(t, "order")
 		pts = perm
 	}
